@@ -10,11 +10,9 @@ Implements the Poseidon hash function with 128-bit security and 4-1 reduction
 Currently supports the zkinterface and zkifbellman backends
 """
 
-# Load Poseidon parameters
-try:
-    backend = os.environ["PYSNARK_BACKEND"]
-except KeyError:
-    backend = "nobackend"
+# Load Poseidon parameters of the backend actually in use (it may have been selected by a
+# pre-import or by auto-detection rather than by the environment variable)
+backend = runtime.backend_name
 
 if backend in poseidon_constants:
     constants = poseidon_constants[backend]
